@@ -98,6 +98,8 @@ func runC17(p *core.Program, r *core.Report) {
 	}
 	c17Replacement(p, r, nk, resolver, sites)
 	c17Validation(p, r, resolver)
+	c17AmbiguousTags(p, r)
+	c17ResolverFit(p, r, resolver)
 	c17Pipeline(p, r)
 	walkerRules(p, r, "R17.5")
 	patchRules(p, r, "R17.6")
@@ -657,9 +659,146 @@ func sortStrings(s []string) {
 	}
 }
 
+// c17ResolverFit (R17.1): the resolver accepts an operand for a parameter only if the operand's
+// static type IS the parameter's type, or the parameter is an interface. Evaluated over type
+// shapes by the reflect.Type evaluator: for a non-interface parameter and an operand of another
+// shape the success return must be infeasible (decided false, not merely unknown).
+func c17ResolverFit(p *core.Program, r *core.Report, resolver *types.Func) {
+	_, fd := p.DeclOf(resolver)
+	if fd == nil || fd.Body == nil || fd.Type.Params == nil {
+		r.Unk("R17.1", "conf resolver/operand fits only its own type or an interface", "", "resolver declaration not found")
+		return
+	}
+	info := p.Pkg("conf").TypesInfo
+	var params []types.Object
+	for _, f := range fd.Type.Params.List {
+		for _, nm := range f.Names {
+			params = append(params, info.Defs[nm])
+		}
+	}
+	if len(params) != 4 {
+		r.Unk("R17.1", "conf resolver/operand fits only its own type or an interface", p.Pos(fd.Pos()), "unexpected parameter list")
+		return
+	}
+	lObj, rObj := params[2], params[3]
+	paths := pathsTo(info, fd, func(a eng.Atom) bool {
+		if a.Kind != "return" {
+			return false
+		}
+		rs := a.Node.(*ast.ReturnStmt)
+		if len(rs.Results) != 3 {
+			return false
+		}
+		tv, ok := info.Types[rs.Results[2]]
+		return ok && tv.Value != nil && tv.Value.ExactString() == "true"
+	})
+	if len(paths) == 0 {
+		r.Unk("R17.1", "conf resolver/operand fits only its own type or an interface", p.Pos(fd.Pos()), "no success return")
+		return
+	}
+	named := func(t *eng.MT) *eng.MT { c := *t; c.Named = true; return &c }
+	strs := &eng.MT{Kind: "Slice", Elem: eng.MTString}
+	shapes := []*eng.MT{eng.MTInt, named(eng.MTInt), eng.MTString, strs, named(strs), {Kind: "Struct", Named: true}, {Kind: "Map", Key: eng.MTString, Elem: eng.MTInt}, named(&eng.MT{Kind: "Map", Key: eng.MTString, Elem: eng.MTInt})}
+	var bad []string
+	n := 0
+	for _, P := range shapes {
+		for _, L := range shapes {
+			if L.Same(P) && !(L.Named && L != P) {
+				continue
+			}
+			fn := &eng.MT{Kind: "Func", In: []*eng.MT{P, P}, Out: []*eng.MT{eng.MTBool}}
+			in := eng.NewInterp(p, "conf")
+			in.Hook = func(x ast.Expr) (eng.RV, bool) {
+				switch y := x.(type) {
+				case *ast.Ident:
+					switch objOf(info, y) {
+					case lObj:
+						return eng.RV{K: "type", T: L}, true
+					case rObj:
+						return eng.RV{K: "type", T: P}, true
+					}
+				case *ast.SelectorExpr:
+					if t := info.TypeOf(y.X); t != nil && strings.HasSuffix(t.String(), "conf.Tag") {
+						switch y.Sel.Name {
+						case "Type":
+							return eng.RV{K: "type", T: fn}, true
+						case "Method":
+							return eng.RV{K: "bool", B: false}, true
+						}
+					}
+				}
+				return eng.RV{}, false
+			}
+			n++
+			for _, atoms := range paths {
+				if feasibleUnder(in, atoms) {
+					bad = append(bad, "operand "+L.String()+" for parameter "+P.String())
+					break
+				}
+			}
+		}
+	}
+	if len(bad) > 5 {
+		bad = append(bad[:5], fmt.Sprintf("… %d more", len(bad)-5))
+	}
+	r.Check(len(bad) == 0 && n > 0, "R17.1", "conf resolver/operand fits only its own type or an interface", p.Pos(fd.Pos()), fmt.Sprintf("%d (operand, parameter) shape pairs of different non-interface types: none can select the function", n),
+		"the resolver can select an overload for "+strings.Join(bad, "; ")+" — the test that an operand fits a parameter is wider than identity (or interface implementation): an occurrence whose operand types do NOT match the function's parameters is rewritten into a call and loses its built-in meaning")
+}
+
+// c17AmbiguousTags (R17.3): Config.Check rejects an operator function that names an ambiguous
+// member because such a tag has no type (nil); every place that marks a tag ambiguous must
+// therefore build it without a type.
+func c17AmbiguousTags(p *core.Program, r *core.Report) {
+	info := p.Pkg("conf").TypesInfo
+	n := 0
+	for _, fd := range p.FuncDecls("conf") {
+		if fd.Body == nil {
+			continue
+		}
+		ast.Inspect(fd.Body, func(nd ast.Node) bool {
+			switch x := nd.(type) {
+			case *ast.CompositeLit:
+				if t := info.TypeOf(x); t == nil || !strings.HasSuffix(t.String(), "conf.Tag") {
+					return true
+				}
+				amb, typed := false, false
+				for _, el := range x.Elts {
+					if kv, ok := el.(*ast.KeyValueExpr); ok {
+						switch eng.ExprStr(kv.Key) {
+						case "Ambiguous":
+							amb = eng.ExprStr(kv.Value) == "true"
+						case "Type":
+							typed = true
+						}
+					}
+				}
+				if amb {
+					n++
+					r.Check(!typed, "R17.3", fmt.Sprintf("%s/ambiguous tag#%d carries no type", core.FuncName("conf", fd), n), p.Pos(x.Pos()), "Tag{Ambiguous: true}", "a tag is marked ambiguous and keeps a type: Config.Check and the checker's call rule recognise an ambiguous member only by its nil type, so an operator mapped to an ambiguous function passes validation and fails at run time")
+				}
+			case *ast.AssignStmt:
+				for _, l := range x.Lhs {
+					if sel, ok := l.(*ast.SelectorExpr); ok && sel.Sel.Name == "Ambiguous" {
+						if t := info.TypeOf(sel.X); t != nil && strings.HasSuffix(t.String(), "conf.Tag") {
+							n++
+							r.Bad("R17.3", fmt.Sprintf("%s/ambiguous tag#%d carries no type", core.FuncName("conf", fd), n), p.Pos(x.Pos()), "an existing tag is marked ambiguous in place (it keeps its type): Config.Check and the checker's call rule recognise an ambiguous member only by its nil type, so `Operator(\"+\", \"Add\")` with Add promoted from two embedded structs passes validation, is typed as overloaded, and fails at run time with `cannot get \"Add\"`")
+						}
+					}
+				}
+			}
+			return true
+		})
+	}
+	if n == 0 {
+		r.Unk("R17.3", "conf/ambiguous tags", "", "no place marks a tag ambiguous")
+	}
+}
+
 func c17Controls() []core.Mutant {
 	return []core.Mutant{
 		{Name: "patcher skips operands without static type", File: "compiler/patcher.go", Old: "\trightType := binaryNode.Right.Type()\n", New: "\trightType := binaryNode.Right.Type()\n\tif leftType == nil || rightType == nil {\n\t\treturn\n\t}\n", Rule: "R17.1", Construct: "no further guard"},
+		{Name: "resolver accepts every assignable operand", File: "conf/operators_table.go", Old: "firstArgumentFit := l == firstArgType || (", New: "firstArgumentFit := (l != nil && l.AssignableTo(firstArgType)) || (", Rule: "R17.1", Construct: "operand fits only its own type"},
+		{Name: "ambiguous tag keeps its type", File: "conf/types_table.go", Old: "\t\t\t\t\t\ttypes[name] = Tag{Ambiguous: true}", New: "\t\t\t\t\t\tprev := types[name]\n\t\t\t\t\t\tprev.Ambiguous = true\n\t\t\t\t\t\ttypes[name] = prev", Rule: "R17.3", Construct: "ambiguous tag"},
 		{Name: "arguments swapped in the replacement", File: "compiler/patcher.go", Old: "[]ast.Node{binaryNode.Left, binaryNode.Right}", New: "[]ast.Node{binaryNode.Right, binaryNode.Left}", Rule: "R17.2", Construct: "arguments are [left, right]"},
 		{Name: "patcher resolves with the right type twice", File: "compiler/patcher.go", Old: "leftType := binaryNode.Left.Type()", New: "leftType := binaryNode.Right.Type()", Rule: "R17.1", Construct: "operand types in order"},
 		{Name: "first registered function instead of the resolver's answer", File: "compiler/patcher.go", Old: "\t\t\tName:      fn,\n", New: "\t\t\tName:      fns[0],\n", Edits: [][2]string{{"\t_, fn, ok := conf.Find", "\t_, _, ok = conf.Find"}}, Rule: "R17.2", Construct: "calls the function the resolver returned"},
